@@ -15,7 +15,7 @@ Record lparams := {
 
 Inductive pexpr :=
 | PName (s : str)
-| PConst (r : str)                                             (* repr(value), atomic *)
+| PConst (r : str) (numeric : bool)                            (* repr(value), atomic; numeric: an int, bool or float *)
 | PAttr (e : pexpr) (a : str)
 | PCall (f : pexpr) (args : list pexpr) (kw : list (option str * pexpr))    (* None: double-star mapping *)
 | PBin (op : str) (l r : pexpr)                               (* op = the ast class name: Add, Pow, ... *)
@@ -31,6 +31,7 @@ Inductive pexpr :=
 | PIfExp (body test orelse : pexpr)
 | PLambda (args : list str) (defaults : list pexpr) (vararg : option str) (kwonly : list str) (kwarg : option str) (body : pexpr)
 | PStarred (e : pexpr)
+| PNamed (target value : pexpr)                                (* target := value *)
 | POther (kind : str) (kids : list pexpr).                    (* any node kind without a visit_ method: children only *)
 
 Definition has_visit (k : str) : bool := existsb (str_eqb k) sourcegen_visits.
@@ -56,12 +57,20 @@ Fixpoint print (fuel : nat) (e : pexpr) : option str :=
       let prs l := seq_opt (map pr l) in
       match e with
       | PName s => Some s
-      | PConst r => Some r
-      | PAttr v a => match pr v with Some sv => Some (sv ++ [46] ++ a) | None => None end
+      | PConst r _ => Some r
+      | PAttr v a =>
+          match pr v with
+          | Some sv => match v with
+                       | PConst _ true => Some ([40] ++ sv ++ [41] ++ [46] ++ a)      (* 1 .real: the dot must not run into the number *)
+                       | _ => Some (sv ++ [46] ++ a)
+                       end
+          | None => None
+          end
       | PCall fn args kw =>
           match pr fn, prs args, seq_opt (map (fun ka => match fst ka, pr (snd ka) with
                                                         | Some k, Some v => Some (k ++ [61] ++ v)
-                                                        | _, _ => None           (* keyword.arg is None: TypeError *)
+                                                        | None, Some v => Some ([42; 42] ++ v)        (* a double-star mapping *)
+                                                        | _, None => None
                                                         end) kw) with
           | Some sf, Some sa, Some sk => Some (sf ++ [40] ++ join_with comma (sa ++ sk) ++ [41])
           | _, _, _ => None
@@ -88,7 +97,20 @@ Fixpoint print (fuel : nat) (e : pexpr) : option str :=
           | Some sym, Some sx => Some ([40] ++ sym ++ (if str_eqb sym (s2l "not") then [32] else []) ++ sx ++ [41])
           | _, _ => None
           end
-      | PSub v sl => match pr v, pr sl with Some sv, Some ss => Some (sv ++ [91] ++ ss ++ [93]) | _, _ => None end
+      | PSub v sl =>
+          match pr v with
+          | Some sv =>
+              match sl with
+              | PTuple (x :: r) =>              (* a tuple of subscripts is written without parentheses *)
+                  match prs (x :: r) with
+                  | Some [one] => Some (sv ++ [91] ++ one ++ [44] ++ [93])
+                  | Some items => Some (sv ++ [91] ++ join_with comma items ++ [93])
+                  | None => None
+                  end
+              | _ => match pr sl with Some ss => Some (sv ++ [91] ++ ss ++ [93]) | None => None end
+              end
+          | None => None
+          end
       | PSlice lo up st =>
           let o x := match x with Some y => pr y | None => Some [] end in
           match o lo, o up, st with
@@ -113,29 +135,31 @@ Fixpoint print (fuel : nat) (e : pexpr) : option str :=
       | PDict kv =>
           match seq_opt (map (fun kv0 => match fst kv0 with
                                          | Some k => match pr k, pr (snd kv0) with Some a, Some b => Some (a ++ s2l ": " ++ b) | _, _ => None end
-                                         | None => None                           (* visit(None) *)
+                                         | None => match pr (snd kv0) with Some b => Some ([42; 42] ++ b) | None => None end   (* a double-star mapping *)
                                          end) kv) with
           | Some xs => Some ([123] ++ join_with comma xs ++ [125])
           | None => None
           end
       | PIfExp b t o =>
           match pr b, pr t, pr o with
-          | Some sb, Some st, Some so => Some (sb ++ s2l " if " ++ st ++ s2l " else " ++ so)
+          | Some sb, Some st, Some so => Some ([40] ++ sb ++ s2l " if " ++ st ++ s2l " else " ++ so ++ [41])
           | _, _, _ => None
           end
       | PLambda args defaults vararg kwonly kwarg body =>
-          (* signature(): args with defaults, star-vararg, double-star-kwarg; keyword-only parameters are not written *)
+          (* signature(): args with defaults, star-vararg or a bare star before keyword-only parameters, those, double-star-kwarg *)
           match prs defaults, pr body with
           | Some sd, Some sb =>
               let npad := (length args - length sd)%nat in
               let dopt := repeat None npad ++ map Some sd in
               let items := map (fun ad => match snd ad with Some d => fst ad ++ [61] ++ d | None => fst ad end) (combine args dopt)
-                           ++ (match vararg with Some v => [[42] ++ v] | None => [] end)
+                           ++ (match vararg with Some v => [[42] ++ v] | None => match kwonly with [] => [] | _ => [[42]] end end)
+                           ++ kwonly
                            ++ (match kwarg with Some k => [[42; 42] ++ k] | None => [] end) in
               Some (s2l "lambda " ++ join_with comma items ++ s2l ": " ++ sb)
           | _, _ => None
           end
       | PStarred x => match pr x with Some s => Some ([42] ++ s) | None => None end
+      | PNamed t v => match pr t, pr v with Some st, Some sv => Some ([40] ++ st ++ s2l " := " ++ sv ++ [41]) | _, _ => None end
       | POther kind kids =>
           if has_visit kind then None      (* a kind the model does not cover: not comparable *)
           else match prs kids with Some xs => Some (concat xs) | None => None end
